@@ -98,7 +98,7 @@ Proof. split; vm_compute; reflexivity. Qed.
    restart - presents the checksum the version manifest gives for that file (the
    lockfile's remote checksum for the URL never replaces it), and no such call
    is made unless the manifest was loaded and has a usable checksum. *)
-From DG Require Model.Jsr Proofs.JsrProofs.
+From DG Require Model.Jsr Model.RunJsr Proofs.JsrProofs.
 
 Theorem C05_registry_presents_manifest_checksum : forall W o roots g,
   Jsr.wf_jworld W = true -> Jsr.jbuild W o roots = Some g ->
@@ -113,6 +113,36 @@ Proof.
   exists vi, k. repeat split; assumption.
 Qed.
 Print Assumptions C05_registry_presents_manifest_checksum.
+
+(* the same statement as a decision procedure on a loader-call log (RunJsr.call_presents_manifest): it is
+   evaluated on the REAL call log of registries whose package files are also imported as assets (text /
+   bytes imports, outside the registry model), and it is true of every call log of the model *)
+Theorem C05_registry_call_judge_correct : forall W cs,
+  forallb (RunJsr.call_presents_manifest W) cs = true <->
+  (forall c p v path, In c cs -> Jsr.cls_of W (Jsr.jc_spec c) = Jsr.CFile p v path ->
+     exists vi k, Jsr.v_meta (Jsr.ver_of W (p, v)) = Jsr.VOk vi /\ Jsr.get_checksum W vi path = Some k /\
+                  Jsr.jc_checksum c = Some k).
+Proof.
+  intros W cs. rewrite forallb_forall. split.
+  - intros H c p v path Hin Hc. specialize (H c Hin). unfold RunJsr.call_presents_manifest in H. rewrite Hc in H.
+    destruct (Jsr.v_meta (Jsr.ver_of W (p, v))) as [f|h|vi] eqn:Em; try discriminate.
+    destruct (Jsr.get_checksum W vi path) as [k|] eqn:Eg; [|discriminate].
+    destruct (Jsr.jc_checksum c) as [x|] eqn:Ek; [|discriminate].
+    apply N.eqb_eq in H. subst x. exists vi, k. split; [reflexivity|]. split; [exact Eg | reflexivity].
+  - intros H c Hin. unfold RunJsr.call_presents_manifest.
+    destruct (Jsr.cls_of W (Jsr.jc_spec c)) as [pkg req ex| |p v path|] eqn:Hc; try reflexivity.
+    destruct (H c p v path Hin Hc) as [vi [k [Hm [Hg Hk]]]]. rewrite Hm, Hg, Hk. apply N.eqb_refl.
+Qed.
+Print Assumptions C05_registry_call_judge_correct.
+
+Theorem C05_registry_model_calls_judged_true : forall W o roots g,
+  Jsr.wf_jworld W = true -> Jsr.jbuild W o roots = Some g ->
+  forallb (RunJsr.call_presents_manifest W) (Jsr.jg_calls g) = true.
+Proof.
+  intros W o roots g Hwf Hb. apply C05_registry_call_judge_correct.
+  intros c p v path Hin Hc. exact (C05_registry_presents_manifest_checksum W o roots g Hwf Hb c p v path Hin Hc).
+Qed.
+Print Assumptions C05_registry_model_calls_judged_true.
 
 (* The locker is told a package-manifest checksum only for a package version the original lockfile
    had no entry for (existing entries are never overwritten), and the value is the manifest's own
